@@ -92,8 +92,13 @@ func runCurlW(c *core.Ctx) {
 		}
 	}
 	// the public sponge: batches of 1, 2, W-1, W messages of 1..3 blocks, two squeezed blocks
-	for _, b := range []int{1, 2, W - 1, W} {
+	// batches larger than the word size (W+1 ... 65): the implementation may refuse them, but a batch it accepts must come
+	// out lane by lane like every other one (a batch limit that does not follow the word size folds lanes onto each other)
+	for _, b := range []int{1, 2, W - 1, W, W + 1, 2*W - 1, 2 * W, 63, 64, 65} {
 		for blocks := 1; blocks <= 3; blocks++ {
+			if b > W && blocks > 1 {
+				continue
+			}
 			src := make([]trinary.Trits, b)
 			for j := range src {
 				src[j] = make(trinary.Trits, 243*blocks)
@@ -110,6 +115,9 @@ func runCurlW(c *core.Ctx) {
 				}
 			})
 			c.Eval(int64(b))
+			if b > W && p == nil && err != nil {
+				continue // refused: fine
+			}
 			if p != nil || err != nil {
 				c.Violate("C20w/sponge/error", fmt.Sprintf("batch of %d messages of %d blocks: %v %v", b, blocks, p, err), nil, "", nil)
 				continue
